@@ -195,6 +195,23 @@ func VerifC10Nested() {
 		}
 	}
 	nd.Assert(out == one+one, "nested-reference")
+	// a block nested in a later clause, followed by more content of that clause
+	out, err = vRender("{% if a %}A{% else %}B{% if b %}x{% endif %}C{% endif %}|{% if a %}A{% elsif b %}B{% for i in (1..1) %}f{% endfor %}C{% else %}D{% unless a %}u{% endunless %}E{% endif %}|{% case 1 %}{% when 2 %}W{% when 1 %}{% if b %}y{% endif %}Z{% else %}{% if b %}n{% endif %}N{% endcase %}", Bindings{"a": v1, "b": v2})
+	nd.Assert(err == nil, "clause-nesting-no-error")
+	w := ""
+	bx, by := "", ""
+	if t2 {
+		bx, by = "x", "y"
+	}
+	switch {
+	case t1:
+		w = "A|A|"
+	case t2:
+		w = "B" + bx + "C|BfC|"
+	default:
+		w = "B" + bx + "C|DuE|"
+	}
+	nd.Assert(out == w+by+"Z", "content-after-nested-block-stays-in-its-clause")
 	nd.Reach("C10.nested")
 }
 
